@@ -570,6 +570,7 @@ func init() {
 		n, _ := c.extra["clockN"].(int)
 		c.extra["clockN"] = n + 1
 		v := c.tb.Var(fmt.Sprintf("clk%d", n), BV(64))
+		c.auxVars = append(c.auxVars, v) // part of every cached model, not of the replay vector
 		c.assume(c.tb.Cmp(OpBvSle, c.tb.Const(0, 64), v))
 		if prev, ok := c.extra["clockPrev"].(*Term); ok {
 			c.assume(c.tb.Cmp(OpBvSle, prev, v))
